@@ -115,19 +115,27 @@ func endianPut(n int, big bool) intrinsic {
 		b, v := args[len(args)-2].T, args[len(args)-1].T
 		c.oblige("index", f.sweepTags(), g, fmt.Sprintf("(>= %s %d)", c.sLen(b), n), f.where(in), fmt.Sprintf("binary.ByteOrder.PutUint%d needs %d bytes", n*8, n))
 		eh := c.elemHeap(types.Typ[types.Uint8])
-		f.x.frameCheck(st, eh, c.sRef(b), g, f.where(in))
+		f.x.frameCheck(st, eh, c.sRef(b), g, f.where(in), c.sOff(b), c.simplify(fmt.Sprintf("(+ %s %d)", c.sOff(b), n)))
 		arr := sel(st.get(eh), c.sRef(b))
+		// the bytes of v are fresh constants tied to v by the (unique) base-256 decomposition, which keeps the
+		// goal linear; they are also given in div/mod form for callers that need a particular byte.
+		var sum []string
 		for k := 0; k < n; k++ {
 			sh := k
 			if big {
 				sh = n - 1 - k
 			}
-			bt := fmt.Sprintf("(mod (div %s %s) 256)", v, pow2s(8*sh))
+			bt := c.freshConst("byte", "Int")
+			c.assert(fmt.Sprintf("(and (<= 0 %s) (<= %s 255))", bt, bt))
+			dm := fmt.Sprintf("(mod (div %s %s) 256)", v, pow2s(8*sh))
 			if sh == 0 {
-				bt = fmt.Sprintf("(mod %s 256)", v)
+				dm = fmt.Sprintf("(mod %s 256)", v)
 			}
+			c.assert(eq(bt, dm))
+			sum = append(sum, fmt.Sprintf("(* %s %s)", pow2s(8*sh), bt))
 			arr = sto(arr, c.simplify(fmt.Sprintf("(+ %s %d)", c.sOff(b), k)), bt)
 		}
+		c.assert(fmt.Sprintf("(=> (and (<= 0 %s) (< %s %s)) (= %s (+ %s)))", v, v, pow2s(8*n), v, strings.Join(sum, " ")))
 		st.set(eh, sto(st.get(eh), c.sRef(b), arr))
 		f.x.syncViews(st)
 		return SV{}, true
